@@ -505,8 +505,8 @@ const SYS_CASES: u64 = 3 * 8 * 2 * 2 * 3 * 2 * 2;
 
 pub fn budget(_prop: &str, tier: Tier) -> u64 {
     match tier {
-        Tier::Quick => SYS_CASES + 5000,
-        Tier::Thorough => SYS_CASES * 4 + 40_000,
+        Tier::Quick => SYS_CASES + 100_000,
+        Tier::Thorough => SYS_CASES * 4 + 2_000_000,
     }
 }
 
